@@ -312,6 +312,13 @@ pub fn compare(imp: &str, model: &str, p: &Proj) -> Option<(String, bool)> {
             return Some(("shape".into(), false));
         }
         let doc = extra(&b, "doc=") == Some("1");
+        // the I/O group: the properties say nothing about what an implemented IN/OUT does (ports are outside the
+        // machine state); this tree reports them as unknown, which is what the model does.  If the implementation
+        // executes one, the step cannot be judged against the model and is left alone (C17's twins still apply).
+        let timed = a.len() > 14 && !a[13].contains('=');
+        if extra(&b, "io=") == Some("1") && ((a[11] != "255" && b[11] == "255") || (timed && a[14] != b[14])) {
+            return Some(("\u{0}unjudged".into(), false));
+        }
         match p.mode {
             Mode::Plain => compare_r(&a, &b, p).map(|w| (w, false)),
             Mode::DocOnly => {
@@ -367,6 +374,10 @@ pub fn compare(imp: &str, model: &str, p: &Proj) -> Option<(String, bool)> {
         let b: Vec<&str> = model.split(' ').collect();
         if a.len() < 7 || b.len() < 7 {
             return Some(("shape".into(), false));
+        }
+        // a sweep that met the I/O group and where the implementation did not report it as unknown: not judged
+        if extra(&b, "io=") == Some("1") && a[4] != b[4] {
+            return None;
         }
         let doc = extra(&b, "doc=") == Some("1");
         if p.swr & 1 != 0 && a[1] != b[1] {
@@ -546,6 +557,12 @@ pub fn run_chunk(drv: &str, tmpdir: &str, cases: &[Case]) -> Stats {
                     continue;
                 }
                 if let Some((what, oracle)) = compare(reply, m, &c.projs[li]) {
+                    if what.starts_with('\u{0}') {
+                        // an I/O instruction the implementation executes: from here on the two sides may differ
+                        // legitimately (the port data is not part of the machine state); the rest of the case is not judged
+                        reported = true;
+                        continue;
+                    }
                     st.mismatch_count += 1;
                     if oracle {
                         st.oracle_count += 1;
